@@ -50,11 +50,35 @@ def remaining (b : AbiBuffer) : Nat := b.items.length - b.cursor
 /-- the values `abi_ptr_and_len` exposes (pointer = slab/vector base + cursor, length = remaining) -/
 def window (b : AbiBuffer) : List Nat := b.items.drop b.cursor
 
-/-- `advance(amt)` -/
+/-- `advance(amt)` in closed form (`Proofs/AbiBuffer.lean: advanceRust_eq_advance` proves it equal to the code's
+loop `advanceRust`) -/
 def advance (b : AbiBuffer) (amt : Nat) : Step AbiBuffer :=
   if amt + b.cursor > b.items.length then .panic "assert!(amt + self.cursor <= self.rust_storage.len())" []
   else if b.kind != .lists then .ok { b with cursor := b.cursor + amt } []
   else .ok { b with cursor := b.cursor + amt } ((b.window.take amt).map (evDli b.c))
+
+/-- `advance(amt)` as the code is written (abi_buffer.rs): `assert!(amt + cursor <= len)`; without lists
+the cursor jumps; otherwise `abi_ptr_and_len()` is taken once, `assert!(amt <= len)`, and the loop runs
+`amt` times: `cursor += 1` FIRST (exception safety), then `dealloc_lists(ptr)`, then `ptr += elem size`.
+`ptr` is modelled as the index into `items` it points at (slab base + index · elem size). -/
+def advanceLoop (b : AbiBuffer) (ptr : Nat) : Nat → AbiBuffer × List Ev
+  | 0 => (b, [])
+  | n + 1 =>
+    let b1 := { b with cursor := b.cursor + 1 }
+    let ev := match b.items[ptr]? with
+      | some id => [evDli b.c id]
+      | none => []            -- out of bounds: excluded by the asserts
+    let (b2, evs) := advanceLoop b1 (ptr + 1) n
+    (b2, ev ++ evs)
+
+def advanceRust (b : AbiBuffer) (amt : Nat) : Step AbiBuffer :=
+  if amt + b.cursor > b.items.length then .panic "assert!(amt + self.cursor <= self.rust_storage.len())" []
+  else if b.kind != .lists then .ok { b with cursor := b.cursor + amt } []
+  else
+    let ptr := b.cursor                        -- `abi_ptr_and_len().0` = base + cursor · elem size
+    let len := b.items.length - b.cursor       -- `abi_ptr_and_len().1`
+    if amt > len then .panic "assert!(amt <= len)" []
+    else let (b', evs) := advanceLoop b ptr amt; .ok b' evs
 
 /-- `take_vec()`: the unsent values are lifted back (if they were lowered), the slab is released, the
 buffer is left empty -/
